@@ -10,10 +10,13 @@ use serde::{Deserialize, Serialize};
 pub struct Fmt {
     pub dec: String,
     pub thou: String,
+    /// the numeric date spelling installed through set_date_rule is month/day/year (default: day/month/year)
+    #[serde(default)]
+    pub mdy: bool,
 }
 
 impl Default for Fmt {
-    fn default() -> Fmt { Fmt { dec: ",".into(), thou: ".".into() } }
+    fn default() -> Fmt { Fmt { dec: ",".into(), thou: ".".into(), mdy: false } }
 }
 
 /// decimal literal: [-]int[<dec>frac][suffix]
@@ -218,7 +221,7 @@ pub fn render_lit(l: &Lit, f: &Fmt) -> String {
         },
         Lit::Dur(parts) => parts.iter().map(|(n, w, _)| format!("{} {}", n, w)).collect::<Vec<_>>().join(" "),
         Lit::Date(d) => match &d.form {
-            DateForm::Slash => format!("{}/{}/{}", d.d, d.m, d.y),
+            DateForm::Slash => if f.mdy { format!("{}/{}/{}", d.m, d.d, d.y) } else { format!("{}/{}/{}", d.d, d.m, d.y) },
             DateForm::DMonthY => format!("{} {} {}", d.d, d.month_word, d.y),
             DateForm::MonthDY { comma } => format!("{} {}{} {}", d.month_word, d.d, if *comma { "," } else { "" }, d.y),
             DateForm::DMonth => format!("{} {}", d.d, d.month_word),
